@@ -201,7 +201,7 @@ Proof.
     rewrite <- !app_assoc. rewrite run_item by lia.
     unfold parse_param. rewrite PK. cbn [bind]. unfold upd. cbn [fst snd].
     rewrite other_put_end by (eapply Forall_impl; [|exact B]; cbn [other_id]; intros; lia).
-    rewrite len_cons. replace ((1 + len os + c0 + 255) mod 256) with (len os + c0) by lia.
+    rewrite len_cons in *. replace ((1 + len os + c0 + 255) mod 256) with (len os + c0) by lia.
     rewrite (IH (os_done ++ [VL [VN id; VN plen; VB c]]) (id + 1) c0); try assumption; try lia.
     + now rewrite <- app_assoc.
     + apply Forall_app. split; [eapply Forall_impl; [|exact B]; intros; cbn beta in *; lia|].
